@@ -109,7 +109,7 @@ func checkC16(p *load.Program, r *kit.Report) {
 			continue
 		}
 		li := kit.Lockset(f, nil)
-		lock := li.Key(f.Params[0]) + ".stateLock"
+		lock := li.Key(f.Params[0]) + "." + curName(p, "stateLock")
 		cg := boolFieldGuards(f, isCancelled)
 		notCancelled := edgesOf(cg, false)
 		bad := ""
@@ -380,7 +380,7 @@ func checkBlockManager(p *load.Program, r *kit.Report) {
 				bad = "currentIsComplete is not set when the channel is closed"
 			}
 			li := kit.Lockset(f, nil)
-			if !li.Holds(closeI, li.Key(f.Params[0])+".currentLock", true) {
+			if !li.Holds(closeI, li.Key(f.Params[0])+"."+curName(p, "currentLock"), true) {
 				bad = "the close is not under currentLock"
 			}
 		}
@@ -527,7 +527,7 @@ func checkBlockManager(p *load.Program, r *kit.Report) {
 				}
 				for _, ref := range *ms.Referrers() {
 					if cp, isCall := ref.(*ssa.Call); isCall && kit.CallID(cp) == "builtin.copy" && cp.Call.Args[0] == ssa.Value(ms) && loadOfField(cp.Call.Args[1], dl) {
-						if li.Holds(cp, li.Key(f.Params[0])+".downloaderLock", false) {
+						if li.Holds(cp, li.Key(f.Params[0])+"."+curName(p, "downloaderLock"), false) {
 							ok = true
 						}
 					}
